@@ -216,6 +216,17 @@ impl Api {
             AnyCache::Async(c) => bo(c.clear()).is_ok(),
         }
     }
+    /// wait() until it succeeds: a full insert buffer makes wait() return an error at once, without waiting for anything
+    fn settle(&self) -> bool {
+        let t0 = Instant::now();
+        while t0.elapsed() < Duration::from_secs(10) {
+            if self.wait() {
+                return true;
+            }
+            std::thread::sleep(Duration::from_micros(300));
+        }
+        false
+    }
     fn wait(&self) -> bool {
         match &self.0 {
             AnyCache::Sync(c) => c.wait().is_ok(),
@@ -350,7 +361,7 @@ fn instance(tx: mpsc::Sender<Value>, seed: u64, flavor: String, exec: String, ti
             what = "get";
         } else if r < 82 + pclear && !tiny {
             // values resident now are dropped without callback
-            api.wait();
+            api.settle();
             let p = post(&api.0);
             for e in p["store"].as_array().unwrap() {
                 cleared.push(e["v"].as_u64().unwrap());
@@ -405,11 +416,11 @@ fn instance(tx: mpsc::Sender<Value>, seed: u64, flavor: String, exec: String, ti
                 }
                 std::thread::sleep(period / 5);
             }
-            api.wait();
+            api.settle();
             snap(&api, now, true, due_now, &accepted, &cleared, &mut cbs, lookups, "advance+traffic");
             continue;
         }
-        api.wait();
+        api.settle();
         snap(&api, now, false, now, &accepted, &cleared, &mut cbs, lookups, what);
     }
     let _ = tx.send(json!({"ev":"Op","completed":true,"begin":true,"what":"close/drop"}));
@@ -458,15 +469,15 @@ fn est_instance(tx: mpsc::Sender<Value>, seed: u64, flavor: String, exec: String
         api.insert(k, next_val, 1, 0);
         next_val += 1;
     }
-    api.wait();
+    api.settle();
     for _round in 0..25 {
         api.clear();
-        api.wait();
+        api.settle();
         for k in keys {
             api.insert(k, next_val, 1, 0);
             next_val += 1;
         }
-        api.wait();
+        api.settle();
         let mut kept: std::collections::HashMap<u64, u64> = std::collections::HashMap::new();
         let mut total = 0u64;
         let kept_metric = |api: &Api| post(&api.0)["met"]["keepGets"].as_u64().unwrap_or(0);
@@ -485,7 +496,7 @@ fn est_instance(tx: mpsc::Sender<Value>, seed: u64, flavor: String, exec: String
             }
             last = now;
         }
-        api.wait();
+        api.settle();
         // the policy worker drains its queue
         let t0 = Instant::now();
         while post(&api.0)["polq"].as_u64().unwrap_or(0) > 0 && t0.elapsed() < Duration::from_secs(3) {
@@ -560,7 +571,7 @@ fn dflt_instance(tx: mpsc::Sender<Value>, seed: u64, flavor: String, exec: Strin
             accepted.push(v);
         }
     }
-    api.wait();
+    api.settle();
     snap(&api, now, false, &accepted, &mut cbs, "inserted");
     // the clock passes some of the deadlines; two default cleanup intervals of real time go by, under light traffic
     now += [1100u64, 1800, 2600][rng.gen_range(0..3)];
@@ -573,7 +584,7 @@ fn dflt_instance(tx: mpsc::Sender<Value>, seed: u64, flavor: String, exec: Strin
         }
         std::thread::sleep(Duration::from_millis(200));
     }
-    api.wait();
+    api.settle();
     snap(&api, now, true, &accepted, &mut cbs, "advance+traffic (default cleanup interval)");
     let _ = tx.send(json!({"ev":"Op","completed":true,"begin":true,"what":"close/drop"}));
     api.close();
@@ -686,7 +697,7 @@ fn par_instance(tx: mpsc::Sender<Value>, seed: u64, flavor: String, exec: String
         let v0 = next_val;
         next_val += 1;
         api.insert(k, v0, 1, 0);
-        api.wait();
+        api.settle();
         if api.get(k) != Some(v0) {
             continue;
         }
@@ -751,7 +762,7 @@ fn par_instance(tx: mpsc::Sender<Value>, seed: u64, flavor: String, exec: String
         let (wants, rels) = (raw.iter().filter(par).filter(|e| e.kind == "want" || e.kind == "got").count(), raw.iter().filter(par).filter(|e| e.kind == "rel").count());
         let _ = tx.send(json!({"ev":"Locks","locks":crate::cache::lock_events_json(raw, true),"wants":wants,"rels":rels}));
         let calls: Vec<Value> = VLOG.lock().drain(..).map(|(p, c, ok)| json!([p, c, ok])).collect();
-        api.wait();
+        api.settle();
         let fin = api.get(k).map(|v| v as i64).unwrap_or(-1);
         // some of the writes carried a TTL, some did not: the expiration buckets must end up matching the entry that won
         let pq = post(&api.0);
@@ -817,7 +828,7 @@ fn par_instance(tx: mpsc::Sender<Value>, seed: u64, flavor: String, exec: String
         for h in hs {
             let _ = h.join();
         }
-        api.wait();
+        api.settle();
         let p = post(&api.0);
         let _ = tx.send(json!({"ev":"Quiesce","what":"after a burst of parallel removes and inserts","store":p["store"],"costs":p["costs"],"used":p["used"],"len":p["len"]}));
     }
@@ -852,17 +863,17 @@ fn par_instance(tx: mpsc::Sender<Value>, seed: u64, flavor: String, exec: String
         for _ in 0..3000 {
             v += 2;
             api.insert(0, v, 1, 0);
-            api.wait();
+            api.settle();
             api.remove(0);
             api.insert(1, v + 1, 1, 0);
-            api.wait();
+            api.settle();
             api.remove(1);
         }
         stopf.store(true, Ordering::SeqCst);
         for h in lookers {
             let _ = h.join();
         }
-        api.wait();
+        api.settle();
         let _ = tx.send(json!({"ev":"Foreign","foreign":foreign.load(Ordering::SeqCst),"lookups":looked.load(Ordering::SeqCst)}));
     }
     // (2e) one key switched between TTL and no TTL by two threads at once, while two more keep the expiration map's lock busy:
@@ -889,7 +900,7 @@ fn par_instance(tx: mpsc::Sender<Value>, seed: u64, flavor: String, exec: String
         for round in 0..300u64 {
             let v = 6_000_000 + round * 4;
             api.insert(k, v, 1, 3_600_000);
-            api.wait();
+            api.settle();
             let barrier = Arc::new(std::sync::Barrier::new(2));
             let hs: Vec<_> = (0..2u64)
                 .map(|t| {
@@ -917,7 +928,7 @@ fn par_instance(tx: mpsc::Sender<Value>, seed: u64, flavor: String, exec: String
         for h in noise {
             let _ = h.join();
         }
-        api.wait();
+        api.settle();
     }
     // (2d) clear() while other threads only LOOK UP (no writes in flight, so the known race D7 of clear() with buffered items
     // cannot occur): the lookups keep the policy mutex and the counters busy; after clear() returned the cache is empty and the
@@ -927,7 +938,7 @@ fn par_instance(tx: mpsc::Sender<Value>, seed: u64, flavor: String, exec: String
         for k in 2..8u64 {
             api.insert(k, 4_000_000 + round * 10 + k, 1, 0);
         }
-        api.wait();
+        api.settle();
         let stopf = Arc::new(AtomicBool::new(false));
         let gets = Arc::new(std::sync::atomic::AtomicU64::new(0));
         let hs: Vec<_> = (0..4u64)
@@ -957,7 +968,7 @@ fn par_instance(tx: mpsc::Sender<Value>, seed: u64, flavor: String, exec: String
             let _ = h.join();
         }
         let g1 = gets.load(Ordering::SeqCst);
-        api.wait();
+        api.settle();
         let p = post(&api.0);
         // lookups that can have been counted after the reset: those started after the snapshot g0 (4 may have been in flight);
         // lookups that must have been counted after it: those started after clear() returned
